@@ -185,3 +185,34 @@ func VerifC19_Completion() {
 	vAssert("completion/returns-nothing", remaining == nil && err == nil)
 	vReach("completed")
 }
+
+// Option names, aliases and argument names made of wide (multibyte)
+// characters: help generation must not depend on byte lengths in a way that panics.
+func VerifC19_HelpWideNames() {
+	vNativeReset()
+	shape := vInt("shape", 0, 3)
+	kind := vInt("kind", 0, 2)
+	withShort := vBool("withshort") // a second, short option that widens the column
+	opt := New()
+	name := []string{"ヘルプ設定", "🚀🚀", "éèêëàâ", "ünïcödé-näme"}[shape]
+	switch kind {
+	case 0:
+		opt.Bool(name, false, opt.Description("wide"))
+	case 1:
+		opt.String(name, "", opt.Alias("出"), opt.ArgName("値"), opt.Required())
+	case 2:
+		opt.StringSlice(name, 1, 2, opt.Description("wide\nsecond line"))
+	}
+	if withShort {
+		opt.Bool("o", false)
+	}
+	opt.NewCommand("コマンド", "wide command")
+	opt.HelpCommand("help", opt.Alias("?"))
+	vPhase("run")
+	h := opt.Help()
+	vObserve("help", h)
+	vAssert("help/names-the-option", strings.Contains(h, name))
+	_, err := opt.Parse([]string{"--" + name})
+	_ = err
+	vReach("helped")
+}
